@@ -884,12 +884,15 @@ struct Runner<'a> {
 	forge: Forge,
 	/// shared chain per world for blocks the reference rejects (none of them may change it)
 	shared: BTreeMap<usize, (PathBuf, Chain)>,
+	/// the same world with one more plain block on top (head at height 10): a candidate built on block 9 arrives
+	/// there as a fork block that does not win; blocks the reference rejects must be refused there as well
+	forked: BTreeMap<usize, (PathBuf, Chain)>,
 	rootless: u64,
 }
 
 impl<'a> Runner<'a> {
 	fn new(sc: &'a uni::Scratch) -> Runner<'a> {
-		Runner { sc, forge: Forge::default(), shared: BTreeMap::new(), rootless: 0 }
+		Runner { sc, forge: Forge::default(), shared: BTreeMap::new(), forked: BTreeMap::new(), rootless: 0 }
 	}
 
 	fn run_tx(&mut self, s: &Shape, c: &Cand, rep: &mut Report) -> String {
@@ -982,6 +985,33 @@ impl<'a> Runner<'a> {
 				format!("Chain::process_block = {:?} but the reference over the openings says {} ({}); corruption {} at {} of shape {}", v2.as_ref().map(|t| t.as_ref().map(|t| t.height)), r, why, c.name, c.site, s.json()),
 				case.clone(),
 			);
+		}
+		if !fresh {
+			if !self.forked.contains_key(&w.wv) {
+				let x = w.open_copy(self.sc);
+				let kc = uni::keychain(SEED);
+				let top = uni::extend(&x.1, &kc, &w.prev, &uni::BlockSpec::empty(7_700));
+				assert!(top.header.total_difficulty() >= b.header.total_difficulty(), "fork world: the candidate must not have more work than the head");
+				self.forked.insert(w.wv, x);
+			}
+			let v3 = self.forked[&w.wv].1.process_block(b.clone(), Options::NONE);
+			rep.evaluations += 1;
+			rep.outcome(&format!("process_block-as-losing-fork-block:{}:{}", r, match &v3 { Ok(_) => "ok".to_string(), Err(e) => wide_class(&format!("{:?}", e)) }));
+			if v3.is_ok() {
+				rep.violation(
+					verdict_key("process_block-as-losing-fork-block", &c.name, true),
+					format!("Chain::process_block of the block delivered as a sibling of the head (same work, it does not become the head) = {:?} but the reference over the openings says {} ({}); corruption {} at {} of shape {}", v3.as_ref().map(|t| t.as_ref().map(|t| t.height)), r, why, c.name, c.site, s.json()),
+					{
+						let mut j = case.clone();
+						j["as_losing_fork_block"] = json!(true);
+						j
+					},
+				);
+				if let Some((d, ch)) = self.forked.remove(&w.wv) {
+					drop(ch);
+					let _ = std::fs::remove_dir_all(d);
+				}
+			}
 		}
 		let mut obs = format!("Block::validate={:?} process_block={:?} reference={:?}", v1.as_ref().map(|_| ()), v2.as_ref().map(|_| ()), exp);
 		if fresh && v2.is_ok() {
